@@ -163,6 +163,43 @@ def rewrite_after_load(ctx, rng, models, mi, tmp, fname, files, tags, wit, ops_d
                       tags=tags, witness=wit)
 
 
+def cross_type_load(ctx, rng, tmp):
+    """A file written by a ComplexWaveFunction loaded into a PositiveWaveFunction of the same amplitude shape (a compatible
+    model for its amplitude network): the parameters arrive bit-identically and the positive state stays a positive state - what
+    it accepts as metadata and what it writes afterwards is what a positive state that never loaded anything accepts and
+    writes (differential against the library's own behaviour before the load)."""
+    from qucumber.nn_states import PositiveWaveFunction
+    from qucumber.utils import unitaries as _un
+
+    nv, nh = int(rng.integers(1, 4)), int(rng.integers(1, 4))
+    amc, phc = gen.draw_model(rng, "complex", nv, nh, scales=[0.5, 1.0])
+    cw = gen.make_state("complex", amc, phc, unitary_dict=_un.create_dict(Q=gen.enc(gen.haar_2x2(rng))))
+    src = os.path.join(tmp, "cross.pt")
+    cw.save(src, {"note": "from a complex state"})
+    amp, _ = gen.draw_model(rng, "positive", nv, nh, scales=[0.5])
+    fresh, pw = gen.make_state("positive", amp, None), gen.make_state("positive", amp, None)
+    tags = {"state": "positive", "op": "cross-type load"}
+    ctx.lib("load(complex file into a positive state)", pw.load, src, tags=tags)
+    ctx.count("cross_type_loads")
+    for n_, p_ in pw.rbm_am.named_parameters():
+        if not torch.equal(p_.data, dict(cw.rbm_am.named_parameters())[n_].data):
+            ctx.violation("load-parameters", f"rbm_am.{n_} of the positive state differs from the file's after load", tags=tags)
+    md = {"unitary_dict": "my own note", "x": 3}
+    outcome = []
+    for who, st_ in (("never loaded", fresh), ("after the load", pw)):
+        path = os.path.join(tmp, f"cross_{len(outcome)}.pt")
+        try:
+            st_.save(path, dict(md))
+            outcome.append(("saved", sorted(torch.load(path).keys())))
+            st_.save(path)
+            outcome[-1] += (sorted(torch.load(path).keys()),)
+        except Exception as e:  # noqa: BLE001
+            outcome.append(("refused", type(e).__name__))
+    if outcome[0] != outcome[1]:
+        ctx.violation("load-changed-model-kind", f"a positive state that loaded a complex state's file handles metadata {md} differently afterwards: "
+                      f"never loaded -> {outcome[0]}, after the load -> {outcome[1]}", tags=tags)
+
+
 def history(case, ctx, rng, tmp):
     from qucumber.callbacks import ModelSaver
     from qucumber.nn_states import ComplexWaveFunction, DensityMatrix, PositiveWaveFunction
@@ -351,6 +388,7 @@ def history(case, ctx, rng, tmp):
             if j < len(models) and models[j] is not None and j != mi and full_digest(models[j]["st"]) != d:
                 ctx.violation("other-model-changed", f"operation {op} on model {mi} changed model {j} (parameters or unitary dictionary): a "
                               "loaded model must not stay tied to the file it came from", tags=tags, witness=wit)
+    cross_type_load(ctx, rng, tmp)
     kinds_done = {o.split()[0] for o in ops_done}
     if len(ops_done) >= 3 and len(kinds_done) >= 2 and any(o.startswith("save") for o in ops_done) and \
             any(o.startswith(("load", "autoload")) for o in ops_done):
